@@ -537,7 +537,12 @@ func c03StateOwner(c *Ctx) {
 	ix := BuildIndex(c.P)
 	ok := true
 	ws := ix.Writers(FieldRef{Type: "circuitBreaker", Pkg: "circuitbreaker", Field: "state"})
-	for _, w := range ws {
+	for _, wa := range ix.WriteAccesses(FieldRef{Type: "circuitBreaker", Pkg: "circuitbreaker", Field: "state"}) {
+		w := wa.Fn
+		// the initial state of a breaker object the function allocated itself (however Build is factored)
+		if fa, isFA := wa.Instr.(*ssa.FieldAddr); isFA && isPrivateBase(fa.X) {
+			continue
+		}
 		if !ix.WithinNames(w, "circuitbreaker.(*circuitBreaker).transitionTo", "circuitbreaker.(*config).Build") {
 			ok = false
 			c.Fail("circuitbreaker.circuitBreaker.state", c.P.FuncPos(w), "the breaker's state is replaced by "+c.fn(w)+" (only Build and transitionTo may)", "")
